@@ -104,8 +104,7 @@ def targets():
     mk = lambda n, i, f, doc='': Target(f'C05_{n}', i, f, doc=doc)
     return [
         mk('madgwick_imu', Q + G + AC + ['dt', 'beta'], lambda A, v: _madgwick(A, v, False), 'Madgwick().updateIMU(q, gyr, acc, dt), gain = beta'),
-        # madgwick_marg is NOT a target: on one of its paths the regenerated float model and updateMARG differ by 1e-4 (unresolved
-        # translator/model disagreement, see notes/design/C05.md); Madgwick MARG is covered by the search oracle only
+        mk('madgwick_marg', Q + G + AC + MG + ['dt', 'beta'], lambda A, v: _madgwick(A, v, True), 'Madgwick().updateMARG(q, gyr, acc, mag, dt)'),
         mk('mahony_imu', Q + G + AC + ['dt', 'kp', 'ki'] + B0, lambda A, v: _mahony(A, v, False), 'Mahony.updateIMU -> [q_new, b_new]'),
         mk('mahony_marg', Q + G + AC + MG + ['dt', 'kp', 'ki'] + B0, lambda A, v: _mahony(A, v, True), 'Mahony.updateMARG -> [q_new, b_new]'),
         mk('aqua_imu', Q + G + AC + ['dt', 'alpha'], lambda A, v: _aqua(A, v, False), 'AQUA.updateIMU, threshold 0.9'),
@@ -178,7 +177,7 @@ def _impl():
         return F.Complementary(gyr=gyr, acc=acc, mag=mag, w0=A(c, E0), Dt=float(c['dt']), gain=float(c['gain'])).W[1]
 
     return {
-        'madgwick_imu': lambda c: madg(c, False),
+        'madgwick_imu': lambda c: madg(c, False), 'madgwick_marg': lambda c: madg(c, True),
         'mahony_imu': lambda c: mah(c, False), 'mahony_marg': lambda c: mah(c, True),
         'aqua_imu': lambda c: aqua(c, False), 'aqua_marg': lambda c: aqua(c, True),
         'roleq_ned': lambda c: roleq(c, 'NED'), 'roleq_enu': lambda c: roleq(c, 'ENU'),
@@ -209,7 +208,9 @@ def correspondence(ctx):
         cases = []
         for k in range(n):
             q = cm.rand_unit_quat(rng) * (1.0 if k % 4 else -1.0)
-            qs = q if k % 3 == 0 else cm.rand_unit_quat(rng)
+            # Madgwick normalises its gradient: exactly at the fixed point the gradient is rounding noise and its direction (hence a
+            # beta*dt-sized part of the output) is not a function of the real-number model; those cases are excluded for Madgwick
+            qs = q if (k % 3 == 0 and not name.startswith('madgwick')) else cm.rand_unit_quat(rng)
             R = cm.Rspec(qs)
             g = rng.standard_normal(3) * (1e-3 if k % 2 else 0.5)
             if k % 7 == 3:
@@ -370,7 +371,13 @@ def run_filter(inp):
 
 
 def _name(inp):
-    return f"{inp['filter']}-{'marg' if inp['marg'] else 'imu'}"
+    nm = f"{inp['filter']}-{'marg' if inp['marg'] else 'imu'}"
+    # FKF with a small initial covariance (default Pk = 0.01 I): the Kalman gain collapses before a large error is removed; for
+    # some (attitude, initial error) pairs several degrees remain after 10 000 samples (known finding, own tag so that the
+    # well-conditioned FKF row stays actively checked)
+    if inp['filter'] == 'fkf' and not (inp.get('gains') or {}).get('Pk'):
+        nm += '-slowgain'
+    return nm
 
 
 def o_converge(inp):
@@ -482,7 +489,7 @@ CONFIGS = [
     ('complementary', 1, 'NED', {'gain': 0.5},                              100.0, 100,  40,   0.01, 0.5, 'q'),   # floor 3.9e-4, settle 14
     # FKF calibrated on the tree that contains fixes/C05-fkf-unit-measurement.patch (committed); re-checked on HEAD 0413f58
     ('fkf',           1, 'NED', {},                                          10.0, 4200, 3800, 0.25, 0.5, 'q'),   # floor 3.7e-2, settle 2509 (tol .2)
-    ('fkf',           1, 'NED', {'sigma_g': 1.0, 'sigma_a': 0.001, 'sigma_m': 0.001, 'Pk': 1.0}, 100.0, 1650, 1400, 0.25, 0.5, 'q'),   # floor 3.1e-3, settle 908
+    ('fkf',           1, 'NED', {'sigma_g': 1.0, 'sigma_a': 0.001, 'sigma_m': 0.001, 'Pk': 1.0}, 100.0, 3600, 3300, 0.25, 0.5, 'q'),   # 24 random runs: max .31 at 1650, .083 at 2475, .021 at 3300
     ('fkf',           1, 'NED', {'sigma_g': 1.0, 'sigma_a': 0.01, 'sigma_m': 0.01}, 100.0, 5200, 4700, 0.25, 0.5, 't'),   # floor 6.3e-3, settle 3083
     ('ukf',           0, 'NED', {},                                         100.0, 2000, 1600, 5.0,  0.5, 'q'),   # UKF: see known findings
 ]
